@@ -66,16 +66,16 @@
 ;@specfn wfT : T -> Bool
 
 ; rotations (docs: rotate right lifts the left child)
-(define-fun rotR ((t T)) T
+(define-fun-opaque rotR ((t T)) T
   (mk (i_key (i_left t)) (i_left (i_left t)) (mk (i_key t) (i_right (i_left t)) (i_right t))))
-(define-fun rotL ((t T)) T
+(define-fun-opaque rotL ((t T)) T
   (mk (i_key (i_right t)) (mk (i_key t) (i_left t) (i_left (i_right t))) (i_right (i_right t))))
 ;@specfn rotR : T -> T
 ;@specfn rotL : T -> T
 (define-fun balf ((t T)) Int (- (hgt (i_left t)) (hgt (i_right t))))
 ;@specfn balf : T -> Int
 ; bal: the four documented cases; ties (child balance 0) take the single rotation
-(define-fun bal ((t T)) T
+(define-fun-opaque bal ((t T)) T
   (ite (> (balf t) 1)
        (ite (>= (balf (i_left t)) 0)
             (rotR t)
@@ -211,7 +211,7 @@
        (>= (iavl_Node_subtreeHeight (nd h n)) 0)
        (=> (= (iavl_Node_subtreeHeight (nd h n)) 0)
            (and (= (iavl_Node_size (nd h n)) 1) (not (= (s_base (iavl_Node_value (nd h n))) 0))))
-       (=> (> (iavl_Node_subtreeHeight (nd h n)) 0) (childrenOK h n))))
+       (=> (> (iavl_Node_subtreeHeight (nd h n)) 0) (and (childrenOK h n) (not (= (s_base (iavl_Node_key (nd h n))) 0))))))
 ;@specfn shape N : Int -> Bool
 ; valid(n): n is a well-formed node (heights/sizes consistent all the way down)
 (assert (forall ((h RegN) (n Int))
@@ -389,15 +389,28 @@
            (and (= (iavl_Node_leftNode (select (RegN_iavl_Node h) c)) 0) (= (iavl_Node_rightNode (select (RegN_iavl_Node h) c)) 0)))))
 ;@specfn indep N ghost:inptr : Int Int -> Bool
 ; keyed rotations: the rotation of the node (k, l, r)
-(define-fun rotRk ((k Cnt) (l T) (r T)) T (mk (i_key l) (i_left l) (mk k (i_right l) r)))
-(define-fun rotLk ((k Cnt) (l T) (r T)) T (mk (i_key r) (mk k l (i_left r)) (i_right r)))
+(define-fun-opaque rotRk ((k Cnt) (l T) (r T)) T (mk (i_key l) (i_left l) (mk k (i_right l) r)))
+(define-fun-opaque rotLk ((k Cnt) (l T) (r T)) T (mk (i_key r) (mk k l (i_left r)) (i_right r)))
 ;@specfn rotRk : Cnt T T -> T
 ;@specfn rotLk : Cnt T T -> T
 ; balk: bal over the parts of a node whose stored height/size are being recomputed
-(define-fun balk ((k Cnt) (l T) (r T)) T
+(define-fun-opaque balk ((k Cnt) (l T) (r T)) T
   (ite (> (- (hgt l) (hgt r)) 1)
        (ite (>= (balf l) 0) (rotRk k l r) (rotRk k (rotL l) r))
   (ite (< (- (hgt l) (hgt r)) (- 1))
        (ite (<= (balf r) 0) (rotLk k l r) (rotLk k l (rotR r)))
        (mk k l r))))
 ;@specfn balk : Cnt T T -> T
+
+; tview: the tree held by a root pointer (nil = empty tree)
+(define-fun tview ((h RegN) (root Int)) T (ite (= root 0) TNil (view h root)))
+;@specfn tview N : Int -> T
+(define-fun noCnt () Cnt (mkCnt 0.0 0))
+;@const noCnt Cnt
+
+; (7) rebalancing keeps the size, never increases the height, and yields a
+;     well-formed inner node (lemma bal_bounds in avl.lemmas; bal is opaque
+;     elsewhere)
+(assert (forall ((t T)) (! (=> (and ((_ is Inner) t) (wfT t))
+    (and (= (siz (bal t)) (siz t)) (<= (hgt (bal t)) (hgt t)) (wfT (bal t)) ((_ is Inner) (bal t))))
+  :pattern ((bal t)))))
